@@ -33,7 +33,7 @@ RULE = ('kill cases: an append history of n <= 6 (quick) / 20 (thorough) arrays 
         'empty arrays and data crossing the 512-byte block size, a writer subprocess SIGKILLed after the k-th completed append for '
         'each k in 0..n; store cases: generated datasets with several feature types, image names with nested folders, packed kind '
         'by kind, a third of them after a de-duplication history (two images of a type sharing one inode, or a symbolic link to the '
-        'sibling: stored by tar as link members). distinct non-trivial = distinct (history, k) with k >= 1, and distinct stores')
+        'sibling: stored by tar as link members), a quarter with an EMPTY list of image records. distinct non-trivial = distinct (history, k) with k >= 1, and distinct stores')
 ASSUMPTIONS = [
     'that bytes handed to the OS by flush() survive SIGKILL of the writer is an operating-system fact: it is observed on every '
     'run, not proved (the theorem is about the append log)',
@@ -100,7 +100,7 @@ def cases(rng, tier):
         # how the folder is packed: bare member names (what add_array_to_tar writes), or what `tar -cf x.tar -C folder .`
         # produces (a '.' entry, directory entries, './'-prefixed names), or names with a doubled / and a './' inside
         out.append({'op': 'store', 'd': kgen.gen_dataset(rng, opts), 'pack': rng.choice(['bare', 'dot', 'dot', 'odd']),
-                    'links': rng.choice([0, 0, rng.randrange(1, 10 ** 6)])})
+                    'links': rng.choice([0, 0, rng.randrange(1, 10 ** 6)]), 'no_images': rng.random() < 0.25})
     return out
 
 
@@ -152,6 +152,14 @@ def _store(c):
     try:
         root = os.path.join(base, 'k')
         kgen.write_dataset(c['d'], root, 's')
+        if c.get('no_images'):
+            # a features-only store: the list of image records is there and EMPTY (header only); no image is known, so no feature is
+            # loaded — in the directory form and in the packed form alike
+            rc = os.path.join(root, 'sensors', 'records_camera.txt')
+            if os.path.exists(rc):
+                head = [l for l in open(rc).read().split('\n') if l.startswith('#')]
+                with open(rc, 'w') as f:
+                    f.write('\n'.join(head) + '\n')
         if c.get('links'):
             # a feature folder that went through a de-duplication tool (cp -al, hardlink, jdupes -L): two images of one type whose
             # files are ONE inode — or a symbolic link to the sibling; `tar` / tarfile.add store the second name as a link member
